@@ -799,6 +799,37 @@ fn wrappers(ctx: &Ctx, c: &mut Collector) {
                     cmp!(concat!("Lms/from_format/f32->", stringify!($t)), (lms2.long, lms2.medium, lms2.short), (e(a), e(b), e(1.0 - b)), (a, b));
                     let lmsa = VonKriesLmsa::<D65, f32>::new(a, b, 1.0 - b, a).into_format::<$t, $t>();
                     cmp!(concat!("Lmsa/f32->", stringify!($t)), (lmsa.long, lmsa.medium, lmsa.short, lmsa.alpha), (e(a), e(b), e(1.0 - b), e(a)), (a, b));
+                    // colour and alpha converted to DIFFERENT formats: each follows its own component function
+                    {
+                        let e16 = |x: f32| -> u16 { <u16 as FromStimulus<f32>>::from_stimulus(x) };
+                        let e8 = |x: f32| -> u8 { <u8 as FromStimulus<f32>>::from_stimulus(x) };
+                        let la = palette::SrgbLumaa::new(a, b).into_format::<$t, u16>();
+                        cmp!(concat!("Lumaa/f32->", stringify!($t), ",u16"), (la.luma, la.alpha), (e(a), e16(b)), (a, b));
+                        let la = palette::SrgbLumaa::new(a, b).into_format::<u8, $t>();
+                        cmp!(concat!("Lumaa/f32->u8,", stringify!($t)), (la.luma, la.alpha), (e8(a), e(b)), (a, b));
+                        let la: Alpha<SrgbLuma<$t>, u16> = Alpha::<SrgbLuma<$t>, u16>::from_format(palette::SrgbLumaa::new(a, b));
+                        cmp!(concat!("Lumaa/from_format/f32->", stringify!($t), ",u16"), (la.luma, la.alpha), (e(a), e16(b)), (a, b));
+                        let ra = palette::Srgba::new(a, b, 1.0 - b, b).into_format::<$t, u16>();
+                        cmp!(concat!("Rgba/f32->", stringify!($t), ",u16"), (ra.red, ra.green, ra.blue, ra.alpha), (e(a), e(b), e(1.0 - b), e16(b)), (a, b));
+                        let ra = palette::Srgba::new(a, b, 1.0 - b, b).into_format::<u8, $t>();
+                        cmp!(concat!("Rgba/f32->u8,", stringify!($t)), (ra.red, ra.green, ra.blue, ra.alpha), (e8(a), e8(b), e8(1.0 - b), e(b)), (a, b));
+                        let ra: Alpha<Srgb<$t>, u16> = Alpha::<Srgb<$t>, u16>::from_format(palette::Srgba::new(a, b, 1.0 - b, b));
+                        cmp!(concat!("Rgba/from_format/f32->", stringify!($t), ",u16"), (ra.red, ra.alpha), (e(a), e16(b)), (a, b));
+                        let ma = VonKriesLmsa::<D65, f32>::new(a, b, 1.0 - b, b).into_format::<$t, u16>();
+                        cmp!(concat!("Lmsa/f32->", stringify!($t), ",u16"), (ma.long, ma.medium, ma.short, ma.alpha), (e(a), e(b), e(1.0 - b), e16(b)), (a, b));
+                        let ma = VonKriesLmsa::<D65, f32>::new(a, b, 1.0 - b, b).into_format::<u8, $t>();
+                        cmp!(concat!("Lmsa/f32->u8,", stringify!($t)), (ma.long, ma.alpha), (e8(a), e(b)), (a, b));
+                        // an integer alpha survives a change of the colour's format alone
+                        let keep: Alpha<SrgbLuma<f32>, $t> = Alpha { color: SrgbLuma::new(b), alpha: e(a) };
+                        let k2 = keep.into_format::<u8, $t>();
+                        cmp!(concat!("Lumaa/alpha-kept/", stringify!($t)), (k2.luma, k2.alpha), (e8(b), e(a)), (a, b));
+                        let keep: Alpha<Srgb<f32>, $t> = Alpha { color: Srgb::new(b, b, b), alpha: e(a) };
+                        let k2 = keep.into_format::<u8, $t>();
+                        cmp!(concat!("Rgba/alpha-kept/", stringify!($t)), (k2.red, k2.alpha), (e8(b), e(a)), (a, b));
+                        let keep: Alpha<VonKriesLms<D65, f32>, $t> = Alpha { color: VonKriesLms::<D65, f32>::new(b, b, b), alpha: e(a) };
+                        let k2 = keep.into_format::<u8, $t>();
+                        cmp!(concat!("Lmsa/alpha-kept/", stringify!($t)), (k2.long, k2.alpha), (e8(b), e(a)), (a, b));
+                    }
                     let lb = lms.into_format::<f64>();
                     cmp!(concat!("Lms/", stringify!($t), "->f64"), (lb.long.to_bits(), lb.medium.to_bits(), lb.short.to_bits()), (d(lms.long).to_bits(), d(lms.medium).to_bits(), d(lms.short).to_bits()), (a, b));
                     let lub = SrgbLuma::<$t>::new(e(a)).into_format::<f64>();
@@ -852,12 +883,32 @@ fn wrappers(ctx: &Ctx, c: &mut Collector) {
             cmp!("Hsl/f32->f64", (h.hue.into_inner(), h.saturation.to_bits(), h.lightness.to_bits()), (120.0f64, (a as f64).to_bits(), (b as f64).to_bits()), (a, b));
             let h = Hwb::new_srgb(120.0f32, a, b).into_format::<f64>();
             cmp!("Hwb/f32->f64", (h.hue.into_inner(), h.whiteness.to_bits(), h.blackness.to_bits()), (120.0f64, (a as f64).to_bits(), (b as f64).to_bits()), (a, b));
+            {
+                let e8 = <u8 as FromStimulus<f32>>::from_stimulus(a);
+                let e16 = <u16 as FromStimulus<f32>>::from_stimulus(a);
+                let h = palette::Hsla::new_srgb(120.0f32, a, b, a).into_format::<f64, u8>();
+                cmp!("Hsla/f32->f64,u8", (h.saturation.to_bits(), h.alpha), ((a as f64).to_bits(), e8), (a, b));
+                let h = palette::Hwba::new_srgb(120.0f32, a, b, a).into_format::<f64, u16>();
+                cmp!("Hwba/f32->f64,u16", (h.whiteness.to_bits(), h.alpha), ((a as f64).to_bits(), e16), (a, b));
+                let h = palette::Okhsla::new(120.0f32, a, b, a).into_format::<f64, u8>();
+                cmp!("Okhsla/f32->f64,u8", (h.saturation.to_bits(), h.lightness.to_bits(), h.alpha), ((a as f64).to_bits(), (b as f64).to_bits(), e8), (a, b));
+                let h = palette::Okhsva::new(120.0f32, a, b, a).into_format::<f64, u16>();
+                cmp!("Okhsva/f32->f64,u16", (h.saturation.to_bits(), h.value.to_bits(), h.alpha), ((a as f64).to_bits(), (b as f64).to_bits(), e16), (a, b));
+                let h = palette::Okhwba::new(120.0f32, a, b, a).into_format::<f64, u8>();
+                cmp!("Okhwba/f32->f64,u8", (h.whiteness.to_bits(), h.blackness.to_bits(), h.alpha), ((a as f64).to_bits(), (b as f64).to_bits(), e8), (a, b));
+                let k: Alpha<palette::Okhsl<f32>, u16> = Alpha { color: palette::Okhsl::new(120.0f32, b, b), alpha: e16 };
+                let k2 = k.into_format::<f64, u16>();
+                cmp!("Okhsla/alpha-kept/u16", k2.alpha, e16, (a, b));
+                let k: Alpha<Hsv<palette::encoding::Srgb, f32>, u16> = Alpha { color: Hsv::new_srgb(120.0f32, b, b), alpha: e16 };
+                let k2 = k.into_format::<f64, u16>();
+                cmp!("Hsva/alpha-kept/u16", k2.alpha, e16, (a, b));
+            }
             let h = palette::Hsva::new_srgb(120.0f32, a, b, a).into_format::<f64, u8>();
             cmp!("Hsva/f32->f64,u8", (h.saturation.to_bits(), h.alpha), ((a as f64).to_bits(), <u8 as FromStimulus<f32>>::from_stimulus(a)), (a, b));
         }
     }
     c.add(sub, n, n, n, n);
-    c.exhaustive(sub, true, "16 component values (incl. out of range, infinities) × 4 × {Rgb, LinRgb, Rgba, Luma, Lumaa, Alpha, Lms, Lmsa, Hsv, Hsl, Hwb, Hsva} × {u8..u128,f64}, into_format and from_format; integer sources: all 256 u8 codes / 8 codes of u16, u32 × {Rgb, Rgba, Luma, Lumaa, Lms} → {u8..u128, f32, f64}: wrapper ≡ component function, bitwise");
+    c.exhaustive(sub, true, "16 component values (incl. out of range, infinities) × 4 × {Rgb, LinRgb, Rgba, Luma, Lumaa, Alpha, Lms, Lmsa, Hsv, Hsl, Hwb, Hsva} × {u8..u128,f64}, into_format and from_format, colour and alpha to the same and to different formats (T,u16 / u8,T / alpha kept); integer sources: all 256 u8 codes / 8 codes of u16, u32 × {Rgb, Rgba, Luma, Lumaa, Lms} → {u8..u128, f32, f64}: wrapper ≡ component function, bitwise");
 }
 
 fn replay(c: &mut Collector, rep: &Value) {
